@@ -123,7 +123,7 @@ def chain_arms(first_if: ast.If) -> List[Arm]:
         rest = _following(top)
         if rest and all(A.always_leaves(a.body) for a in arms):
             nxt = rest[0]
-            if isinstance(nxt, ast.If) and ("isinstance(" in A.unparse(nxt.test) or "type(" in A.unparse(nxt.test)):
+            if isinstance(nxt, ast.If) and ("isinstance(" in A.unparse(nxt.test) or "type(" in A.unparse(nxt.test) or A.always_leaves(nxt.body)):
                 top = cur = nxt
                 continue
             arms.append(Arm(len(arms), None, rest, cur))
